@@ -12,9 +12,13 @@ violated input preconditions and the named clauses.
 The numerical kernels of the base cases are instantiated by exact ones that satisfy the
 contracts of the theorems: `lu` = exact elimination with row exchanges (`A = L[p] @ U`),
 `chol` = exact Cholesky (fails with "inexact-sqrt" when a pivot is not a rational square),
-`trlog` = the assertions of `cola.linalg.log` followed by the exact determinant (the contract
-`exp(tr log A) = det A`), with the outcome "nan" for a Lanczos leaf that is not positive
-definite (real logarithm of a non-positive eigenvalue).
+`trlog` = the assertions of `cola.linalg.unary.apply_unary` followed by the exact determinant (the
+contract `exp(tr log A) = det A`; since /repo 3c4ea3a the rule takes the complex logarithm, so
+indefinite leaves and negative Diagonal / ScalarMul entries are inside the contract), with the two
+recorded outcomes outside it: "krylov-zero-probe" (undetermined) for a BlockDiag of Krylov
+operators below a Transpose / Adjoint, and "lanczos-batch-breakdown" (undetermined) when the
+probing vectors of the exact trace have Krylov spaces of different dimensions (the batched Lanczos
+loop then divides by a zero / rounding-level norm, see C14).
 -/
 
 open Lean (Json)
@@ -122,10 +126,63 @@ partial def lanczosAssert (A : Op GRat) : Bool :=
   | .adjoint B => lanczosAssert B
   | _ => A.isa .selfAdjoint
 
-/-- Hermitian positive definite on the window (Sylvester: all leading principal minors > 0) -/
-def isPD (n : Nat) (m : MatF GRat) : Bool :=
-  ((List.range n).all fun i => (List.range n).all fun j => m i j == star (m j i)) &&
-  ((List.range n).all fun k => let d := detGE (k + 1) m; d.im == 0 && d.re > 0)
+/-- does `apply_unary(log, A, Lanczos | Arnoldi)` build a Krylov operator (`LanczosUnary` /
+`ArnoldiUnary`) somewhere below its structural rules? -/
+partial def hasKrylovLeaf (A : Op GRat) : Bool :=
+  match A.core with
+  | .diag .. => false | .eye .. => false | .scalar .. => false
+  | .bdiag Ms _ => Ms.any hasKrylovLeaf
+  | .transpose B => hasKrylovLeaf B
+  | .adjoint B => hasKrylovLeaf B
+  | _ => true
+
+/-- `apply_unary(log, BlockDiag)` is a BlockDiag of the members' logarithms; the exact trace probes
+it with the identity, so a member that is a Krylov operator receives the ZERO columns of the
+probes that belong to the other blocks as start vectors (0/0) -/
+partial def zeroProbe (A : Op GRat) : Bool :=
+  match A.core with
+  | .bdiag Ms mults => (mults.sum ≥ 2 && Ms.any hasKrylovLeaf) || Ms.any zeroProbe
+  | .transpose B => zeroProbe B
+  | .adjoint B => zeroProbe B
+  | _ => false
+
+/-- rank of the `k × n` matrix with the given rows (row echelon form over ℚ[i]) -/
+def rankRows (n : Nat) (rows : Array (Array GRat)) : Nat := Id.run do
+  let mut a := rows
+  let mut r := 0
+  for c in [0:n] do
+    match (List.range' r (a.size - r)).find? (fun i => !gIsZero (gget a i c)) with
+    | none => pure ()
+    | some piv =>
+      a := swapRows a r piv
+      let rowr := a.getD r #[]
+      let pinv := (gget a r c).inv
+      for i in [r+1:a.size] do
+        let f := gget a i c * pinv
+        if !gIsZero f then
+          let rowi := a.getD i #[]
+          a := a.setIfInBounds i (Array.ofFn (n := n) fun j => rowi.getD j.val 0 - f * rowr.getD j.val 0)
+      r := r + 1
+  return r
+
+/-- dimension of the Krylov space of `(D, e_i)` -/
+def krylovDim (n : Nat) (D : MatF GRat) (i : Nat) : Nat := Id.run do
+  let Da := toGMat n D
+  let mut v : Array GRat := Array.ofFn (n := n) fun j => if j.val = i then 1 else 0
+  let mut rows : Array (Array GRat) := #[]
+  for _ in [0:n] do
+    rows := rows.push v
+    let v0 := v
+    v := Array.ofFn (n := n) fun r => (List.range n).foldl (fun acc c => acc + gget Da r.val c * v0.getD c 0) 0
+  return rankRows n rows
+
+/-- the probing vectors `e_0 … e_{n-1}` of the exact trace go through `lanczos` as ONE batch; the
+batched loop runs every member until the last one is done (C14, clause batch-member-breakdown),
+so the kernel's contract needs all members' Krylov spaces to have the same dimension -/
+def krylovDimsEqual (n : Nat) (D : MatF GRat) : Bool :=
+  match (List.range n).map (krylovDim n D) with
+  | [] => true
+  | d :: ds => ds.all (· == d)
 
 /-- `trace(log(A, alg), trace_alg)` represented by `exp` of it (contract: `= det A`) -/
 def trlogK (la : LogAlg) (_ta : TraceAlg) (A : Op GRat) : Except String GRat :=
@@ -134,11 +191,52 @@ def trlogK (la : LogAlg) (_ta : TraceAlg) (A : Op GRat) : Except String GRat :=
   match la with
   | .lanczos =>
       if !lanczosAssert A then .error "assert"
-      else if !isPD n D then .error "nan"
+      else if zeroProbe A then .error "krylov-zero-probe"
+      else if !krylovDimsEqual n D then .error "lanczos-batch-breakdown"
       else .ok (detGE n D)
+  | _ =>
+      if zeroProbe A then .error "krylov-zero-probe"
+      else .ok (detGE n D)
+
+def eqWin (n : Nat) (a b : MatF GRat) : Bool :=
+  (List.range n).all fun i => (List.range n).all fun j => a i j == b i j
+
+/-- the exact kernels re-check their own contracts (`KernelsOK` of Lemmas/LogDetDet.lean) on every
+call, so that `C07_det` applies to each answer of this driver up to the trusted `detGE` -/
+def luChecked (n : Nat) (m : MatF GRat) : Except String (List Nat × MatF GRat × MatF GRat) :=
+  match luK n m with
+  | .error e => .error e
+  | .ok (p, L, U) =>
+    let Lv := (forceV n n L).f
+    let Uv := (forceV n n U).f
+    let ok := p.length == n && p.all (· < n) && p.Nodup &&
+      ((List.range n).all fun i => (List.range n).all fun j => (!(i < j) || Lv i j == 0) && (!(j < i) || Uv i j == 0)) &&
+      eqWin n (mmul n (permDen p) (forceV n n (mmul n Lv Uv)).f) m
+    if ok then .ok (p, Lv, Uv) else .error "kernel-contract-violated"
+
+def cholChecked (n : Nat) (m : MatF GRat) : Except String (MatF GRat) :=
+  match cholK n m with
+  | .error e => .error e
+  | .ok L =>
+    let Lv := (forceV n n L).f
+    let herm := (List.range n).all fun i => (List.range n).all fun j => m i j == star (m j i)
+    let ok := ((List.range n).all fun i => (List.range n).all fun j => !(i < j) || Lv i j == 0) &&
+      eqWin n (mmul n Lv (conjM (transposeM Lv))) m
+    if !herm || ok then .ok Lv else .error "kernel-contract-violated"
+
+def kernels : DetKernels GRat GRat := ⟨cholChecked, luChecked, trlogK⟩
+
+/-- the same kernels, except that a leaf outside the Krylov kernel's contract is let through:
+in Python a `nan` result does not stop the evaluation, so an assertion of a LATER member is still
+raised; `code_lenient` lets the harness see it -/
+def trlogLenient (la : LogAlg) (_ta : TraceAlg) (A : Op GRat) : Except String GRat :=
+  let n := A.rows
+  let D := (forceV n n A.den.f).f
+  match la with
+  | .lanczos => if !lanczosAssert A then .error "assert" else .ok (detGE n D)
   | _ => .ok (detGE n D)
 
-def kernels : DetKernels GRat GRat := ⟨cholK, luK, trlogK⟩
+def kernelsLenient : DetKernels GRat GRat := ⟨cholChecked, luChecked, trlogLenient⟩
 
 def jLogAlg (j : Json) : E LogAlg :=
   match j with
@@ -175,10 +273,13 @@ def handle (j : Json) : E String := do
   let code := match claimedDet kernels la ta A with
     | .ok d => "{\"ok\":" ++ showZ d ++ "}"
     | .error e => "{\"err\":\"" ++ e ++ "\"}"
+  let lenient := match claimedDet kernelsLenient la ta A with
+    | .ok d => "{\"ok\":" ++ showZ d ++ "}"
+    | .error e => "{\"err\":\"" ++ e ++ "\"}"
   let spec := if A.rows == A.cols then showZ (detGE n (forceV n n A.den.f).f) else "null"
   let pre := (if A.triTrue then [] else ["tri-not-triangular"]) ++
     (if A.sqMembers then [] else ["nonsquare-member"]) ++
     (if A.dupSlice then ["sliced-repeated-index"] else [])
-  pure ("{" ++ s!"\"id\":{id.compress},\"rows\":{A.rows},\"cols\":{A.cols},\"dtype\":\"{A.dtype.toString}\",\"wf\":{A.wf},\"psd\":{A.isa .psd},\"pre\":{showStrs pre},\"base\":{showStrs (baseKinds A)},\"code\":{code},\"spec\":{spec}" ++ "}")
+  pure ("{" ++ s!"\"id\":{id.compress},\"rows\":{A.rows},\"cols\":{A.cols},\"dtype\":\"{A.dtype.toString}\",\"wf\":{A.wf},\"psd\":{A.isa .psd},\"pre\":{showStrs pre},\"base\":{showStrs (baseKinds A)},\"code\":{code},\"code_lenient\":{lenient},\"spec\":{spec}" ++ "}")
 
 def main : IO Unit := driverMain handle
